@@ -89,6 +89,7 @@ type Machine struct {
 	assertsChecked int
 	params         map[string]int
 	curFrame       *frame
+	harnessFnCache map[*ssa.Function]bool
 	pinned         map[string]any
 	known          map[uint64][]*Term
 	knownHits      int
